@@ -11,6 +11,47 @@ CHECKS = {
     design_ref="DESIGN.md 4.1, 7 (C07)",
     note="Trusts TLC/Apalache arithmetic and the hook wrappers flute::verif::{block_partitioning, block_length} (one-line forwards to the private functions).",
     technique="TLA+ pure-function spec; TLC exhaustive grid + trace validation of flute outputs; Apalache for 48-bit values"),
+ "C08": dict(
+    category="model_checking",
+    text='Every packet the real Sender emits for TLC-enumerated behaviours (object shape x FEC scheme x parity x interleave x transfer count x carousel x publish mode x removal at every packet index, in the first and in a later carousel cycle) is decoded independently and judged by the TLA+ monitor: each (SBN, ESI) once per transfer, ESIs increasing per block, inside the Partition.tla-derived structure, source payload = RFC slice at the RFC offset, all source symbols present when a transfer ends, content rebuilt from source symbols alone, B only on the lone empty-object packet / single post-removal packet / last packet of the final transfer, A only on the close-session packet.',
+    design_ref="DESIGN.md 4.3, 5.3, 7 (C08)",
+    note="Trusts TLC, the harness's RFC decoder rfcdec (validated against Wire.tla by C06), expat for FDT XML, and the read-only hook snapshot for the instant at which an automatic FDT publication happened. Sampled (seeded) from the TLC-enumerated families in the quick tier, complete families in the thorough tier.",
+    technique="TLA+ property monitor (SenderProps.tla) evaluated by TLC on traces recorded from the real Sender driven by TLC-generated behaviours (Gen_Sender.tla)"),
+
+ "C10": dict(
+    category="model_checking",
+    text='Every FDT instance emitted in TLC-enumerated add/remove/publish/set_complete/read/advance histories (metadata strings needing escaping, cache directives, groups, ETag, per-object OTI, FDT cenc, both publish modes, start ids around the 2^20 wrap, durations 2 s - 3 d, automatic republication near expiry) is reassembled from its packets, parsed by expat and judged by the monitor: lists exactly the objects announced at the publication that created it, every attribute unaltered, Expires = publish second + duration, consecutive ids mod 2^20, one id one content, newest instance unexpired while polled.',
+    design_ref="DESIGN.md 4.3, 5.3, 7 (C10)",
+    note="Trusts TLC, the harness's RFC decoder rfcdec (validated against Wire.tla by C06), expat for FDT XML, and the read-only hook snapshot for the instant at which an automatic FDT publication happened. Sampled (seeded) from the TLC-enumerated families in the quick tier, complete families in the thorough tier.",
+    technique="TLA+ property monitor (SenderProps.tla) evaluated by TLC on traces recorded from the real Sender driven by TLC-generated behaviours (Gen_Sender.tla)"),
+
+ "C11": dict(
+    category="model_checking",
+    text="All add/publish/remove/advance/read sequences up to the depth bound over three objects in two queues (both publish modes, 1-2 slots) plus scheduling workloads are replayed; the monitor requires for every object packet that a completely emitted FDT instance lists the object and that no newly published instance is still pending, and that read never answers 'nothing' while an instance is pending.",
+    design_ref="DESIGN.md 4.3, 5.3, 7 (C11)",
+    note="Trusts TLC, the harness's RFC decoder rfcdec (validated against Wire.tla by C06), expat for FDT XML, and the read-only hook snapshot for the instant at which an automatic FDT publication happened. Sampled (seeded) from the TLC-enumerated families in the quick tier, complete families in the thorough tier.",
+    technique="TLA+ property monitor (SenderProps.tla) evaluated by TLC on traces recorded from the real Sender driven by TLC-generated behaviours (Gen_Sender.tla)"),
+
+ "C12": dict(
+    category="model_checking",
+    text="The monitor replicates the public lifecycle from observable events only (subscriber start/stop, add/remove results) and compares after every call with is_added / nb_objects / nb_transfers: exact transfer counts, disappearance after the last transfer, carousel objects stay, removal semantics (at most one more packet, with B, when already sent once or immediate stop; otherwise the transfer completes), no packet outside a transfer, bounded number of reads per instant, 'nothing to send' only when nothing is ready.",
+    design_ref="DESIGN.md 4.3, 5.3, 7 (C12)",
+    note="Trusts TLC, the harness's RFC decoder rfcdec (validated against Wire.tla by C06), expat for FDT XML, and the read-only hook snapshot for the instant at which an automatic FDT publication happened. Sampled (seeded) from the TLC-enumerated families in the quick tier, complete families in the thorough tier.",
+    technique="TLA+ property monitor (SenderProps.tla) evaluated by TLC on traces recorded from the real Sender driven by TLC-generated behaviours (Gen_Sender.tla)"),
+
+ "C13": dict(
+    category="model_checking",
+    text='Scheduling workloads enumerated by TLC (queues x objects of 0..several blocks x multiplex 0..3 x interleave 1..3 x late adds) and free interleavings: no lower-priority packet while a higher-priority object is in transfer or could start, at most max(1, multiplex_files) objects in transfer per queue, first starts in add order, round-robin alternation between objects continuously in transfer, at most interleave_blocks open blocks opened in increasing SBN.',
+    design_ref="DESIGN.md 4.3, 5.3, 7 (C13)",
+    note="Trusts TLC, the harness's RFC decoder rfcdec (validated against Wire.tla by C06), expat for FDT XML, and the read-only hook snapshot for the instant at which an automatic FDT publication happened. Sampled (seeded) from the TLC-enumerated families in the quick tier, complete families in the thorough tier.",
+    technique="TLA+ property monitor (SenderProps.tla) evaluated by TLC on traces recorded from the real Sender driven by TLC-generated behaviours (Gen_Sender.tla)"),
+
+ "C14": dict(
+    category="model_checking",
+    text='Timing grid enumerated by TLC (start time x carousel delay/interval incl. 0 x pacing target incl. zero and past x object size incl. 0 and 1 symbol x polling schedule x trigger_transfer_at) replayed under a virtual clock: no start before the start time, carousel gap respected between bursts, i-th paced packet never before t0 + i*target/n (exact integer arithmetic), overdue paced packet sent at the next poll, no panic and no stall on degenerate inputs.',
+    design_ref="DESIGN.md 4.3, 5.3, 7 (C14)",
+    note="Trusts TLC, the harness's RFC decoder rfcdec (validated against Wire.tla by C06), expat for FDT XML, and the read-only hook snapshot for the instant at which an automatic FDT publication happened. Sampled (seeded) from the TLC-enumerated families in the quick tier, complete families in the thorough tier.",
+    technique="TLA+ property monitor (SenderProps.tla) evaluated by TLC on traces recorded from the real Sender driven by TLC-generated behaviours (Gen_Sender.tla)"),
 }
 
 NOT_YET = "check under construction in this round (specification and harness not finished yet)"
